@@ -101,6 +101,15 @@ class Exec:
                     codes.append(w.ckpt_claude(repo, [p1], who, "PreToolUse", env=env).code)
             elif (who != HUMAN and not op.get("skip_pre_ckpt")) or op.get("pre_ckpt"):
                 codes.append(w.ckpt_human(repo, paths, env=env).code)
+            dirty = who != HUMAN and not claude and op.get("dirty") and all(files[p] is not None for p in paths)
+            if dirty:
+                # the agent reports its edit while the editor buffer is still unsaved: the checkpoint carries
+                # the buffer (dirty_files), the disk still has the old text; the editor saves right afterwards
+                w.tick(op.get("dt2", 7))
+                r = w.ckpt_ai(repo, paths, who, transcript=op.get("transcript"), model=op.get("model", "m1"),
+                              tool=op.get("tool", "simagent"), env=env, dirty={p: files[p] for p in paths})
+                codes.append(r.code)
+                res["err"] = r.err[-400:]
             for p in paths:
                 c = files[p]
                 if c is None:
@@ -127,7 +136,7 @@ class Exec:
                     r = w.ckpt_claude(repo, [p1], who, "PostToolUse", env=env)
                     codes.append(r.code)
                 res["err"] = r.err[-400:]
-            elif who != HUMAN:
+            elif who != HUMAN and not dirty:
                 w.tick(op.get("dt2", 7))
                 r = w.ckpt_ai(repo, paths, who, transcript=op.get("transcript"),
                               model=op.get("model", "m1"), tool=op.get("tool", "simagent"), env=env)
